@@ -35,7 +35,7 @@ def run_property(pid, tier="quick", seed=0, repo=None, quiet=False):
     results = []
     for rule in spec["rules"]:
         r = rule(ctx)
-        if len(r.instances) < r.floor:
+        if len(r.instances) < r.floor and not r.findings:
             raise AnalysisError(
                 f"rule {r.rule}: only {len(r.instances)} instances enumerated, fewer than the floor {r.floor} confirmed on the pinned tree "
                 f"(an anchor moved or the enumeration broke)"
